@@ -130,9 +130,10 @@ type ctrial struct {
 	targets []string
 	x       string
 	op      string // remove, reset
-	tmode   string // midwalk, sendgate, feedstall, free
+	tmode   string // midwalk, sendgate, registering, feedstall, free
 	nPer    int
 	procs   int
+	refresh int // 0: no periodic refresh, 1: UpdateMetadata loop, 2: UpdateMetadata and UpdateSize loops
 
 	mu   sync.Mutex
 	subs []*csub
@@ -171,7 +172,7 @@ func waitChan(ch <-chan struct{}, d time.Duration) bool {
 }
 
 func (t *ctrial) witness(s *csub) map[string]interface{} {
-	w := map[string]interface{}{"targets": t.targets, "x": t.x, "op": t.op, "schedule": t.tmode, "leaves_per_root": t.nPer, "gomaxprocs": t.procs,
+	w := map[string]interface{}{"targets": t.targets, "x": t.x, "op": t.op, "schedule": t.tmode, "leaves_per_root": t.nPer, "gomaxprocs": t.procs, "periodic_refresh_loops": t.refresh,
 		"op_invoked_tick": atomic.LoadInt64(&t.opInvokeTick), "op_returned_tick": atomic.LoadInt64(&t.opReturnTick)}
 	t.mu.Lock()
 	w["subscriptions"] = append([]*csub{}, t.subs...)
@@ -286,10 +287,12 @@ func (t *ctrial) streamPaths(kind string) [][]string {
 		}
 		return [][]string{{"a"}, {"b"}}
 	default: // star-stream
-		switch rng.Intn(3) {
-		case 0:
+		switch rng.Intn(5) {
+		case 0, 1:
 			return [][]string{{}}
-		case 1:
+		case 2:
+			return [][]string{{"meta"}, {sentRoot}}
+		case 3:
 			return [][]string{{croots[rng.Intn(3)]}, {sentRoot}}
 		default:
 			return [][]string{{"b"}, {"c"}, {sentRoot}}
@@ -548,13 +551,16 @@ func concTrial(r *vlib.Run, trial int, rng *rand.Rand) {
 	switch x := rng.Intn(10); {
 	case x < 3:
 		t.tmode = "midwalk"
-	case x < 6:
+	case x < 5:
 		t.tmode = "sendgate"
-	case x < 8 && t.op == "reset":
+	case x < 7:
+		t.tmode = "registering"
+	case x < 9 && t.op == "reset":
 		t.tmode = "feedstall"
 	default:
 		t.tmode = "free"
 	}
+	t.refresh = []int{0, 0, 0, 1, 1, 1, 1, 2, 2, 2}[rng.Intn(10)]
 	t.nPer = 60 + rng.Intn(440)
 	t.midK = 1 + int64(rng.Intn(t.nPer))
 
@@ -611,6 +617,9 @@ func concTrial(r *vlib.Run, trial int, rng *rand.Rand) {
 		}
 	}
 	leadKind := []string{"x-stream", "star-stream"}[rng.Intn(2)]
+	if t.tmode == "registering" {
+		leadKind = "x-stream"
+	}
 	for _, kind := range []string{"x-stream", "star-stream", "star-once"} {
 		if kind != leadKind && rng.Intn(2) == 0 {
 			continue
@@ -679,6 +688,15 @@ func concTrial(r *vlib.Run, trial int, rng *rand.Rand) {
 	var leadWalking int32
 	pert.OnPoint = func(name string, key interface{}) {
 		switch name {
+		case "subscribe.registering":
+			// A bounded hold between the target check and the registration of the
+			// lead subscriber.
+			if t.tmode == "registering" && lookup(key) == lead {
+				t.fire()
+				if waitChan(t.opInvoked, 20*time.Millisecond) {
+					waitChan(t.opDone, 4*time.Millisecond)
+				}
+			}
 		case "subscribe.walk.begin":
 			if s := lookup(key); s != nil {
 				atomic.CompareAndSwapInt64(&s.walkBegin, 0, ctick())
@@ -698,7 +716,11 @@ func concTrial(r *vlib.Run, trial int, rng *rand.Rand) {
 			if t.tmode == "midwalk" && atomic.LoadInt32(&leadWalking) == 1 && atomic.AddInt64(&t.walkHits, 1) == t.midK {
 				t.fire()
 				if waitChan(t.opInvoked, 20*time.Millisecond) {
-					waitChan(t.opDone, time.Duration(300+t.midK%700)*time.Microsecond)
+					d := time.Duration(300+t.midK%700) * time.Microsecond
+					if t.refresh > 0 {
+						d *= 4 // the operation may have to wait for a refresh in progress
+					}
+					waitChan(t.opDone, d)
 				}
 			}
 		}
@@ -707,6 +729,11 @@ func concTrial(r *vlib.Run, trial int, rng *rand.Rand) {
 		switch name {
 		case "subscribe.registering", "subscribe.registered", "subscribe.walk.begin", "subscribe.walk.end", "cache.remove.walked":
 			return true
+		case "cache.update.written":
+			// Slows the writers of the other targets and the refresh of their
+			// metadata; X's last updates right before the operation are not delayed.
+			tn, _ := key.(string)
+			return tn != t.x
 		case "subscribe.dequeue":
 			// Only around the start of a stream (a walk delivers thousands of responses).
 			if s := lookup(key); s != nil {
@@ -718,7 +745,12 @@ func concTrial(r *vlib.Run, trial int, rng *rand.Rand) {
 	verifhook.Set(pert.Handle)
 	defer verifhook.Set(nil)
 
+	stopRefresh := make(chan struct{})
+	var stopOnce sync.Once
+	stopRefreshers := func() { stopOnce.Do(func() { close(stopRefresh) }) }
+	var refreshCalls [2]int64
 	teardown := func() {
+		stopRefreshers()
 		t.mu.Lock()
 		subs := append([]*csub{}, t.subs...)
 		t.mu.Unlock()
@@ -750,6 +782,50 @@ func concTrial(r *vlib.Run, trial int, rng *rand.Rand) {
 			t.fail(s, "stream-ended-without-remove", fmt.Sprintf("ended during its initial snapshot with status %v", s.err))
 			return
 		}
+	}
+	// 1b. The periodic refreshes of the collector run during the whole trial.
+	var rwg sync.WaitGroup
+	for i, fn := range []func(){t.c.UpdateMetadata, t.c.UpdateSize} {
+		i, fn := i, fn
+		if i >= t.refresh {
+			continue // seeded: no refresh / UpdateMetadata only / both
+		}
+		rr := rand.New(rand.NewSource(rng.Int63()))
+		rwg.Add(1)
+		go func() {
+			defer rwg.Done()
+			for {
+				select {
+				case <-stopRefresh:
+					return
+				default:
+				}
+				atomic.AddInt64(&vclock, 1)
+				fn()
+				atomic.AddInt64(&refreshCalls[i], 1)
+				var pause time.Duration
+				if i == 0 {
+					pause = time.Duration(rr.Intn(150)) * time.Microsecond
+				} else {
+					pause = time.Duration(300+rr.Intn(2500)) * time.Microsecond
+				}
+				if pause < 20*time.Microsecond {
+					runtime.Gosched()
+				} else {
+					time.Sleep(pause)
+				}
+			}
+		}()
+	}
+	// X's stream reports its state (metadata of X changes).
+	switch rng.Intn(4) {
+	case 0:
+		t.c.Sync(t.x)
+	case 1:
+		t.c.Connect(t.x)
+		t.c.Sync(t.x)
+	case 2:
+		t.c.ConnectError(t.x, fmt.Errorf("c14 connect error"))
 	}
 	// 2. Writers of the other targets.
 	var wg sync.WaitGroup
@@ -787,13 +863,19 @@ func concTrial(r *vlib.Run, trial int, rng *rand.Rand) {
 	}
 	// 4. The operation.
 	switch t.tmode {
-	case "midwalk", "sendgate":
+	case "midwalk", "sendgate", "registering":
 		waitChan(t.trigger, 50*time.Millisecond)
 	case "feedstall":
 		atomic.StoreInt32(&t.feedArmed, 1)
 		time.Sleep(time.Duration(rng.Intn(200)) * time.Microsecond)
 	default:
 		time.Sleep(time.Duration(rng.Intn(500)) * time.Microsecond)
+	}
+	// The last updates of X's own stream move its counters and its latest
+	// timestamp shortly before the operation (existing leaves only); then the
+	// stream is stopped.
+	for i, n := 0, 2+rng.Intn(4); i < n; i++ {
+		t.upd(t.x, []string{croots[rng.Intn(3)], leafName(rng.Intn(t.nPer))})
 	}
 	atomic.StoreInt64(&t.opInvokeTick, ctick())
 	close(t.opInvoked)
@@ -833,6 +915,12 @@ func concTrial(r *vlib.Run, trial int, rng *rand.Rand) {
 		t.start(s)
 	}
 	wg.Wait()
+	// The refreshes stop before the sentinels are written: what they announced
+	// precedes the sentinels on every feed consumer's queue.
+	stopRefreshers()
+	rwg.Wait()
+	r.Count("conc_updatemetadata_calls", atomic.LoadInt64(&refreshCalls[0]))
+	r.Count("conc_updatesize_calls", atomic.LoadInt64(&refreshCalls[1]))
 
 	// 7. Sentinels, quiescence.
 	var live []string
@@ -932,6 +1020,7 @@ func concTrial(r *vlib.Run, trial int, rng *rand.Rand) {
 		return
 	}
 	r.Count("conc_trials_"+t.op+"_"+t.tmode, 1)
+	r.Count(fmt.Sprintf("conc_trials_with_%d_refresh_loops", t.refresh), 1)
 	if inWalk {
 		r.Count("conc_trials_operation_overlapped_an_initial_walk", 1)
 		if lead != nil {
